@@ -162,7 +162,9 @@ type Op struct {
 	S    string `json:"s,omitempty"`
 }
 
-var namePool = []string{"a", "b", "x", "", "foo", "toString", "ünï", "a b", "\"q\""}
+var namePool = []string{"a", "b", "x", "", "foo", "toString", "ünï", "a b", "\"q\"",
+	// names are byte strings to the mapper: not valid UTF-8, distinct from one another and from U+FFFD
+	"\xff", "\xfe", "a\x80", "\ufffd", "\xc3", "\x00"}
 var strPieces = []string{"a", "ab", " ", "\n", "\r", "\r\n", "é", "日本", "x\ny", "\n\n", "\r\r", "a\r\nb", "\t", ";", "\r\n\r\n", "z\r",
 	// characters other tools treat as line terminators or that merely look like them: to the mapper they are columns
 	"\u2028", "a\u2029b", "\u0085", "\v", "\f", "\x00", "\xe2\x80", "\u2028\n"}
